@@ -739,6 +739,10 @@ func (interp *Interpreter) cfg(root *node, sc *scope, importPath, pkgName string
 						if src.typ, err = nodeType(interp, sc, src); err != nil {
 							return
 						}
+						if src.typ.isNil() {
+							err = src.cfgErrorf("use of untyped nil in assignment")
+							return
+						}
 						if src.typ.isBinMethod {
 							dest.typ = valueTOf(src.typ.methodCallType())
 						} else {
